@@ -133,10 +133,17 @@ def repeat(rng, fs):
 def noise_leaf(rng, kind):
     fs = rng.choice([48828.125, 100000.0, 97656.25])
     if kind == 'blnoise':
-        return {'t': 'blnoise', 'fs': fs, 'seed': rng.randint(0, 20), 'level': 1.0,
-                'fl': rng.choice([1000, 2000]), 'fh': rng.choice([6000, 8000]), 'polarity': rng.choice([1, -1])}
+        n = {'t': 'blnoise', 'fs': fs, 'seed': rng.randint(0, 20), 'level': 1.0,
+             'fl': rng.choice([1000, 2000]), 'fh': rng.choice([6000, 8000]), 'polarity': rng.choice([1, -1])}
+        # (equalize=True -- only usable with a caller-written calibration that has `get_iir`; stim_common supports it as
+        # `eq` -- is NOT generated: SciPy filters the FIR equalising stage by convolution, whose round-off depends on the
+        # chunking, and the high-order direct-form band-pass behind it amplifies that to 1e-8 of full scale and more
+        # within 30 samples on the unchanged library; reported in the hardening notes, C10 draws it with equal chunking)
+        return n
     if kind == 'firnoise':
-        return {'t': 'firnoise', 'fs': fs, 'seed': rng.randint(0, 20), 'level': 60, 'fl': 2000, 'fh': 8000,
+        # (band edges as floats: with integer fl / fh the library truncates the scale factor to an integer -- np.full_like
+        # on an integer array -- and a level below the calibration's reference yields pure silence; levels are C08's)
+        return {'t': 'firnoise', 'fs': fs, 'seed': rng.randint(0, 20), 'level': 60, 'fl': 2000.0, 'fh': 8000.0,
                 'ntaps': rng.choice([101, 401])}
     return {'t': 'shaped', 'fs': fs, 'seed': rng.randint(0, 20), 'level': 1.0, 'fl': 2000, 'fh': 8000,
             'ntaps': rng.choice([101, 401])}
@@ -214,6 +221,31 @@ def vary(rng, tree, transform=True):
             n.update(duty=rng.choice([n['duty'], 0.0, 1.0]), depth=rng.choice([n['depth'], 0.0]), cal=rng.random() < 0.3)
         elif t == 'env' and transform and n['window'] != 'cos2factory' and rng.random() < 0.25:
             n['transform'] = rng.choice(sorted(S.TRANSFORMS))
+        # HARDENING item 9: optional arguments left out; in most of these every optional argument of the node is at its
+        # documented default, so that all of them are left out
+        if rng.random() < 0.25:
+            if rng.random() < 0.7 and t not in ('firnoise', 'shaped'):
+                S.to_defaults(n)
+            n['omit'] = True
+        if 'in' not in n:
+            break
+        n = n['in']
+    return tree
+
+
+def defaults_tree(rng, tree):
+    """The same kind of tree, every optional constructor argument at its documented default and left out of the call
+    (by keyword in half of the nodes: then also the non-trailing ones)."""
+    tree = copy.deepcopy(tree)
+    n = tree
+    while True:
+        S.to_defaults(n)
+        if rng.random() < 0.5:
+            n['kw'] = True
+        if n['t'] == 'samtone' and rng.random() < 0.5:
+            # `equalize` (sidebands scaled at their own frequencies) shows only through a calibration that depends on
+            # frequency: the calibration is given, the options after it are left out
+            n.update(cal='interp', level=80, kw=True)
         if 'in' not in n:
             break
         n = n['in']
@@ -264,15 +296,22 @@ def big_tree(rng, cls):
     return car
 
 
-def one_param_twin(rng, tree):
-    """A copy of `tree` differing in exactly one parameter of its top node (HARDENING item 7)."""
+def one_param_twin(rng, tree, key=None):
+    """A copy of `tree` differing in exactly one parameter of its top node (HARDENING item 7); `key`: which one
+    (gate / envelope nodes)."""
     t2 = copy.deepcopy(tree)
     fs = tree.get('fs', 1000.0)
     t = tree['t']
     if t in ('gate', 'env'):
-        key = rng.choice(['start', 'dur'] + (['window'] if t == 'env' and tree['window'] != 'cos2factory' else []))
+        plain = t == 'env' and tree['window'] != 'cos2factory'
+        key = key or rng.choice(['start', 'dur'] + (['window', 'transform', 'transform'] if plain else []))
+        if key in ('window', 'transform') and not plain:
+            key = 'start'
         if key == 'window':
             t2['window'] = rng.choice([w for w in S.WINDOWS if w != tree['window']])
+        elif key == 'transform':     # the same envelope with / without a pointwise transform (an optional callable)
+            if t2.pop('transform', None) is None:
+                t2['transform'] = rng.choice(sorted(S.TRANSFORMS))
         else:
             t2[key] = tree[key] + rng.choice([1, 2]) / fs
     elif t == 'sam':
@@ -377,6 +416,52 @@ def sqwave_nodes(node):
     return out + (sqwave_nodes(node['in']) if 'in' in node else [])
 
 
+_TIES = []
+
+
+def square_ties():
+    """(fs, fm, d): modulation frequencies (integer or half-integer Hz, period 1.5 .. 200 samples) at the sampling rates
+    the properties name whose period start k * fs / fm lies EXACTLY on x.5 for k = d, 3d, 5d, ... (d <= 40), computed
+    in exact rational arithmetic.  There the rounded start of a period is decided by the last bit of the float product:
+    an implementation that obtains it in a way that depends on where the chunk began (an accumulated sum, say) shifts
+    one period by a sample.  Random (fs, fm) almost never hit such a tie."""
+    if not _TIES:
+        from fractions import Fraction
+        for fs in (25000.0, 44100.0, 48828.125, 97656.25, 100000.0, 195312.5):
+            F = Fraction(fs)
+            for m in range(max(int(2 * fs / 200), 1), int(2 * fs / 1.5) + 1):      # fm = m / 2
+                g = 4 * F / m           # k * fs / fm = k * g / 2: a tie iff k * g is an odd integer
+                if g.numerator % 2 == 1 and g.denominator <= 40:
+                    _TIES.append((fs, m / 2, g.denominator))
+    return _TIES
+
+
+def sqtie_cases(rng, npairs):
+    """Square-wave envelopes with an exact .5 tie of a period start, at least six periods into the stimulus where
+    possible: one chunk per period (boundaries at floor / ceil of the period starts), a single boundary 1..3 periods
+    before the tie (+-1 sample), and the fragment function asked from those boundaries."""
+    from fractions import Fraction
+    for fs, fm, d in rng.sample(square_ties(), min(npairs, len(square_ties()))):
+        P = Fraction(fs) / Fraction(fm)
+        ks = [k for k in range(d, 41, 2 * d)]
+        k = rng.choice([x for x in ks if x >= 6] or ks)
+        n = int((k + 3) * P) + 2
+        duty = rng.choice([0.5, 0.5, 0.25, 0.75, round(rng.random(), 3)])
+        node = {'t': 'sqenv', 'fs': fs, 'depth': rng.choice([1.0, 0.5]), 'fm': fm, 'duty': duty, 'alpha': 0,
+                'in': rng.choice([{'t': 'silence', 'fill': 1}, {'t': 'tone', 'fs': fs, 'frequency': fs / 7.3, 'level': 1.0}])}
+        starts = [i * P for i in range(1, k + 4)]
+        per = S.cuts_to_chunks([int(x) + rng.choice([0, 1]) for x in starts], n)
+        yield {'kind': 'factory', 'cls': 'sqenv', 'tree': node, 'chunks': per, 'tag': 'sqtie'}
+        for j in rng.sample([1, 2, 3], 2):
+            if k - j < 0:
+                continue
+            cut = int((k - j) * P) + rng.choice([-1, 0, 1, 2])
+            if 0 < cut < n:
+                yield {'kind': 'factory', 'cls': 'sqenv', 'tree': node, 'chunks': [cut, n - cut], 'tag': 'sqtie'}
+                yield {'kind': 'square_fn', 'fs': fs, 'depth': node['depth'], 'fm': fm, 'duty': duty, 'alpha': 0,
+                       'off': cut, 'n': n - cut, 'tag': 'sqtie'}
+
+
 MODEL_COST = 4e7     # the model's stride loops are O(chunk length x periods in the chunk)
 
 
@@ -457,10 +542,7 @@ def pristine_batch(jobs):
             '        out[str(i)] = np.array(type(e).__name__)\n'
             'buf = io.BytesIO(); np.savez(buf, **out); sys.stdout.buffer.write(buf.getvalue())\n')
     env = dict(os.environ, PSI_REPO=C.REPO, PYTHONDONTWRITEBYTECODE='1')
-    r = subprocess.run([sys.executable, '-c', code, C.VERIF], input=json.dumps(jobs).encode(), capture_output=True,
-                       env=env, timeout=90)
-    if r.returncode != 0:
-        raise RuntimeError('reference interpreter failed: ' + r.stderr.decode()[-300:])
+    r = S.run_helper([sys.executable, '-c', code, C.VERIF], input=json.dumps(jobs).encode(), env=env)
     z = np.load(io.BytesIO(r.stdout))
     return [z[str(i)] for i in range(len(jobs))]
 
@@ -478,10 +560,7 @@ def pristine_draw(tree, n):
             'a = np.asarray(S.build_real(json.loads(sys.argv[2])).next(int(sys.argv[3])), dtype=np.float64)\n'
             'sys.stdout.buffer.write(a.tobytes())\n')
     env = dict(os.environ, PSI_REPO=C.REPO, PYTHONDONTWRITEBYTECODE='1')
-    r = subprocess.run([sys.executable, '-c', code, C.VERIF, json.dumps(tree), str(n)], capture_output=True, env=env,
-                       timeout=90)
-    if r.returncode != 0:
-        raise RuntimeError('pristine interpreter failed: ' + r.stderr.decode()[-300:])
+    r = S.run_helper([sys.executable, '-c', code, C.VERIF, json.dumps(tree), str(n)], env=env)
     return np.frombuffer(r.stdout, dtype=np.float64)
 
 
@@ -493,6 +572,7 @@ class C01(Spec):
     PROOF_MODULES = ['PsiProofs.C01']
     DESIGN_REF = 'DESIGN.md §6 C01'
     PARALLEL = 16
+    CASE_TIMEOUT = 60       # CPU seconds per case (the largest legitimate cases take a few seconds)
     TRUST = [
         'modelled, not verified: np.cos/np.sin are pointwise in their argument; RandomState.uniform(size=n) consumes a '
         'stream; scipy.signal.lfilter with zi is a state machine fed one sample at a time; np.concatenate, basic '
@@ -644,6 +724,14 @@ class C01(Spec):
                 tree = int_tree(rng, cls)
                 n, marks = self.pick_n(rng, tree)
                 yield {'kind': 'factory', 'cls': cls, 'tree': tree, 'chunks': S.boundary_chunks(rng, n, marks), 'tag': 'int'}
+        # item 9: every factory class built with its optional arguments left out (reference: the documented default
+        # spelled out)
+        for cls in CLASSES + extra[:2]:
+            for i in range((2 if quick else 6) if cls in noise else (10 if quick else 50)):
+                tree = defaults_tree(rng, make_tree(rng, cls))
+                n, marks = self.pick_n(rng, tree)
+                chunks = rng.chunks(n, 6) if rng.random() < 0.5 else S.boundary_chunks(rng, n, marks)
+                yield {'kind': 'factory', 'cls': cls, 'tree': tree, 'chunks': chunks, 'tag': 'dflt'}
         # items 5, 6, 7: reset and re-use (after partial draws, after completion, twice in a row, before any draw),
         # get_samples_remaining(), NumPy integer chunk sizes, the caller overwriting what it received, a second
         # object (same arrays / one parameter changed) drawn interleaved, references from a fresh interpreter
@@ -685,6 +773,26 @@ class C01(Spec):
                     c['pristine'] = True
                     n_pristine -= 1
                 yield c
+        # item 7 (siblings): two stimuli that differ in exactly ONE optional argument (transform callable or none, window
+        # name, start, duration; modulation depth / delay ...) built one after the other in this process and drawn with
+        # IDENTICAL chunking, in both orders; the reference of the second comes from a separate interpreter in which the
+        # first never existed (a module-level memo whose key forgets one argument hands one the other's fragments)
+        for cls in ('env', 'env', 'env', 'cos2', 'gate', 'sam', 'sqenv'):
+            for i in range(10 if quick else 50):
+                tree = make_tree(rng, cls)
+                if cls == 'env' and tree['window'] == 'cos2factory':
+                    tree['window'] = 'cosine-squared'
+                t2 = one_param_twin(rng, tree, key=['transform', 'window', 'start', 'dur'][i % 4] if cls == 'env' else None)
+                if t2 is None:
+                    continue
+                if i % 2:
+                    tree, t2 = t2, tree
+                n, marks = self.pick_n(rng, tree)
+                chunks = rng.chunks(n, 6) if rng.random() < 0.5 else S.boundary_chunks(rng, n, marks)
+                yield {'kind': 'factory', 'cls': cls, 'tree': tree, 'chunks': chunks, 'tag': 'sib',
+                       'twin': {'tree': t2, 'chunks': list(chunks)}}
+        # item 4 (exact ties): square-wave periods whose start lies exactly on x.5 samples
+        yield from sqtie_cases(rng, 40 if quick else 300)
         # item 3: far beyond the usual sizes; tiny and huge requests mixed; thousands of draws
         for cls in ('tone', 'gate', 'env', 'sam', 'sqenv', 'sqwave', 'fixed', 'notch', 'repeat'):
             for _ in range(1 if quick else 4):
@@ -787,6 +895,59 @@ class C01(Spec):
                 c['base'] = off - rng.randint(0, 40)
             yield c
 
+        # item 9: the fragment functions called with their optional arguments left out (start_time, rise_time, offset,
+        # phase, polarity, ... at the documented defaults); reference: the plain call with everything spelled out
+        for i in range(nfn // 2):
+            fs = rng.choice(S.FS_LIST)
+            if i % 2:
+                e = env(rng, fs, None, span=300, window=rng.choice(S.WINDOWS), valid=rng.random() < 0.95)
+                lb, dur, rise = S.env_ints({**e, 'start': 0.0})
+                r = dur // 2 if rise is None else rise
+                off = rng.choice([0, max(0, rng.choice([r, dur - r, dur]) + rng.randint(-2, 2))])
+                yield {'kind': 'envelope_fn', 'window': rng.choice([e['window'], 'cosine-squared']), 'fs': fs, 'dur': e['dur'],
+                       'rise': e['rise'], 'start': rng.choice([0, 0.0]), 'off': off,
+                       'n': rng.choice([1, 2, dur + 3, rng.randint(0, 400)]), 'route': 'short', 'tag': 'dflt'}
+            else:
+                yield {'kind': rng.choice(['tone_fn', 'samtone_fn']), 'fs': fs, 'frequency': rng.uniform(20, fs / 4),
+                       'fc': rng.uniform(100, fs / 4), 'fm': rng.uniform(2, 90), 'level': rng.choice([1.0, 0.37]),
+                       'phase': 0, 'polarity': 1, 'off': rng.choice([0, rng.randint(1, 5000)]), 'n': rng.randint(1, 300),
+                       'route': 'short', 'tag': 'dflt'}
+
+        # siblings at function level: the same fragment request for two envelopes that differ in one argument (transform
+        # callable or none, window, start, duration, rise; SAM depth / frequency / delay), one right after the other
+        for i in range(nfn // 3):
+            fs = rng.choice(S.FS_LIST)
+            if i % 3 < 2:
+                e = env(rng, fs, None, span=300, window=rng.choice(S.WINDOWS), valid=True)
+                lb, dur, rise = S.env_ints(e)
+                r = dur // 2 if rise is None else rise
+                off = max(1, rng.choice([lb, lb + r, lb + dur - r, lb + dur]) + rng.randint(-2, 2))
+                c = {'kind': 'envelope_fn', 'window': e['window'], 'fs': fs, 'dur': e['dur'], 'rise': e['rise'],
+                     'start': e['start'], 'off': off, 'n': rng.choice([1, 2, rng.randint(1, 300)]), 'tag': 'sib'}
+                key = ['transform', 'transform', 'window', 'start', 'dur'][i % 5]
+                if key == 'transform':
+                    tf = rng.choice(sorted(S.TRANSFORMS))
+                    if i % 2:
+                        c['transform'] = tf
+                        c['sib'] = {'transform': None}
+                    else:
+                        c['sib'] = {'transform': tf}
+                elif key == 'window':
+                    c['sib'] = {'window': rng.choice([w for w in S.WINDOWS if w != c['window']])}
+                else:
+                    c['sib'] = {key: c[key] + rng.choice([1, 2]) / fs}
+            else:
+                q = sam(rng, fs, None, span=300)
+                d = int(q['delay'] * fs)
+                c = {'kind': 'sam_fn', 'fs': fs, 'depth': q['depth'], 'fm': q['fm'], 'delay': q['delay'],
+                     'off': max(1, d + rng.randint(-3, 40)), 'n': rng.randint(1, 300), 'tag': 'sib',
+                     'route': rng.choice(['public', None])}
+                key = rng.choice(['depth', 'fm', 'delay'])
+                c['sib'] = {key: {'depth': q['depth'] / 2, 'fm': q['fm'] * 1.5, 'delay': q['delay'] + 1 / fs}[key]}
+                if c['route'] is None:
+                    c.pop('route')
+            yield c
+
     def exhaustive_cases(self):
         fs = 1000.0
         tone = {'t': 'tone', 'fs': fs, 'frequency': 37.0, 'level': 1.0}
@@ -832,7 +993,7 @@ class C01(Spec):
             pass                      # driver unavailable: impl_lines falls back / reports
         tw = [c for c in allc if c['kind'] == 'factory' and c.get('twin') and c['twin']['tree'] != c['tree']]
         try:
-            refs = pristine_batch([(c['twin']['tree'], sum(c['twin']['chunks'])) for c in tw]) if tw else []
+            refs = pristine_batch([(S.explicit(c['twin']['tree']), sum(c['twin']['chunks'])) for c in tw]) if tw else []
             for c, a in zip(tw, refs):
                 self.twin_ref[C.case_hash(c)] = a
         except Exception:
@@ -884,7 +1045,7 @@ class C01(Spec):
 
     @staticmethod
     def tol(c):
-        return S.FIR_TOL if c['kind'] in ('factory', 'exh') and S.is_fir(c['tree']) else 0.0
+        return S.tree_tol(c['tree']) if c['kind'] in ('factory', 'exh') else 0.0
 
     @staticmethod
     def compare(plan, mline, arr, tol, scale):
@@ -994,9 +1155,21 @@ class C01(Spec):
         # a caller who wants the fragment from the beginning simply leaves `offset` out: the default must BE 0
         omit = (not ref) and route is None and int(off) == 0 and int(n) % 2 == 0
 
+        # `short`: every optional argument whose value is the documented default is left out of the call
+        short = (not ref) and route == 'short'
+        more = {'samples': n}
+        if int(off) != 0:
+            more['offset'] = off
+
         def once():
             if k == 'envelope_fn':
                 tf = S.TRANSFORMS[c['transform']] if c.get('transform') else None
+                if short and tf is None and c['start'] == 0:
+                    if c['window'] == 'cosine-squared' and c['rise'] is not None and int(n) % 2:
+                        return stim.cos2envelope(fs, c['dur'], c['rise'], **more)
+                    if c['rise'] is None:
+                        return stim.envelope(c['window'], fs, c['dur'], **more)
+                    return stim.envelope(c['window'], fs, c['dur'], c['rise'], **more)
                 if omit and tf is None:
                     if c['window'] == 'cosine-squared' and int(n) % 4 == 0:
                         return stim.cos2envelope(fs, c['dur'], c['rise'], start_time=c['start'], samples=n)
@@ -1036,11 +1209,16 @@ class C01(Spec):
                                      polarity=c['polarity'], calibration=None, samples=n, offset=off)
                 if omit:
                     return stim.tone(fs, c['frequency'], c['level'], c['phase'], c['polarity'], None, n)
+                if short and c['phase'] == 0 and c['polarity'] == 1:
+                    return stim.tone(fs, c['frequency'], c['level'], **more)
                 return stim.tone(fs, c['frequency'], c['level'], c['phase'], c['polarity'], None, n, off)
             if k == 'samtone_fn':
                 if omit:
                     return stim.sam_tone(fs, c['fc'], c['fm'], c['level'], 1, c['phase'], 0, 0, c['polarity'], None, n)
-                return stim.sam_tone(fs, c['fc'], c['fm'], c['level'], 1, c['phase'], 0, 0, c['polarity'], None, n, off)
+                if short and c['phase'] == 0 and c['polarity'] == 1:
+                    return stim.sam_tone(fs, c['fc'], c['fm'], c['level'], **more)
+                return stim.sam_tone(fs, c['fc'], c['fm'], c['level'], 1, c['phase'], 0, 0, c['polarity'], None, n, off,
+                                     None, True, True)
             raise KeyError(k)
 
         try:
@@ -1052,6 +1230,20 @@ class C01(Spec):
                 return np.array(x)
         except (ValueError, ZeroDivisionError, MemoryError) as e:
             return type(e).__name__
+
+    def sib_run(self, c):
+        """Sibling case: B = the case itself, A = the case with the `sib` overrides.  Both full envelopes first (B's, then
+        A's: the references exist before either fragment is asked for), then the same fragment request of A and of B."""
+        b = {k: v for k, v in c.items() if k != 'sib'}
+        a = {**b, **c['sib']}
+        if a.get('transform') is None:
+            a.pop('transform', None)
+        base = c.get('base', 0)
+        span = c['off'] + c['n'] - base
+        out = {'fullB': self.call_fn(b, base, span, ref=True), 'fullA': self.call_fn(a, base, span, ref=True)}
+        out['fragA'] = self.call_fn(a)
+        out['fragB'] = self.call_fn(b)
+        return out
 
     def fn_plan(self, c):
         k = c['kind']
@@ -1082,7 +1274,7 @@ class C01(Spec):
             tol = self.tol(c)
             scale = 1.0
             if tol:
-                full = np.asarray(S.build_real(c['tree']).next(max(sum(h) for h in self.histories(c))))
+                full = np.asarray(S.build_real(S.explicit(c['tree'])).next(max(sum(h) for h in self.histories(c))))
                 scale = float(np.max(np.abs(full))) if len(full) else 1.0
             out, j = [], 0
             for h, run in zip(self.histories(c), runs):
@@ -1102,8 +1294,9 @@ class C01(Spec):
                         out.append(self.compare(plan, mout[j], run[i], tol, scale))
                     j += 1
             return out
-        arr = self.call_fn(c)
-        self._last = (C.case_hash(c), arr)
+        sib = self.sib_run(c) if c.get('sib') else None
+        arr = sib['fragB'] if sib else self.call_fn(c)
+        self._last = (C.case_hash(c), arr, sib)
         if not ml:
             return []
         if isinstance(arr, str):
@@ -1121,8 +1314,10 @@ class C01(Spec):
             runs = last if last is not None else self.run_factory(c)
             hs = self.histories(c)
             nmax = max(sum(h) for h in hs)
+            # the reference: ONE request to a fresh generator, every optional argument spelled out (HARDENING item 9)
+            rtree = S.explicit(c['tree'])
             try:
-                full = np.array(S.build_real(c['tree']).next(nmax))
+                full = np.array(S.build_real(rtree).next(nmax))
             except (ValueError, ZeroDivisionError) as e:
                 # the single request is refused: every history must be refused too
                 for h, run in zip(hs, runs):
@@ -1133,7 +1328,10 @@ class C01(Spec):
             scale = float(np.max(np.abs(full))) if len(full) else 1.0
             if c.get('pristine') and c['kind'] == 'factory':
                 # the reference of the property, from an interpreter in which nothing else has run
-                ref = pristine_draw(c['tree'], nmax)
+                try:
+                    ref = pristine_draw(rtree, nmax)
+                except S.HelperFailed as e:
+                    return f'a single request for {nmax} samples in a fresh interpreter: {e}'
                 if not S.same(full, ref, tol):
                     return (f'a single request for {nmax} samples differs from the same request in a fresh interpreter '
                             f'at sample {S.first_diff(full, ref)}')
@@ -1144,7 +1342,7 @@ class C01(Spec):
                 if not h:
                     continue            # nothing drawn between two resets
                 got = np.concatenate(run) if run else np.zeros(0)
-                want = full[:sum(h)] if sum(h) == nmax else np.array(S.build_real(c['tree']).next(sum(h)))
+                want = full[:sum(h)] if sum(h) == nmax else np.array(S.build_real(rtree).next(sum(h)))
                 if got.shape != want.shape:
                     return f'chunks {h}: {len(got)} samples delivered, {len(want)} requested'
                 bad = (got != want) if tol == 0.0 else (np.abs(got - want) > tol * scale)
@@ -1155,11 +1353,23 @@ class C01(Spec):
             if c['kind'] == 'factory' and c.get('twin'):
                 return self.twin_oracle(c, runs[len(hs)] if len(runs) > len(hs) else [])
             return None
-        frag = last if last is not None else self.call_fn(c)
-        # the full envelope from sample 0; for offsets beyond 2^31 (no machine holds that envelope) a longer fragment
-        # that starts `back` samples earlier: two slices of one envelope agree where they overlap
         base = c.get('base', 0)
-        full = self.call_fn(c, base, c['off'] + c['n'] - base, ref=True)
+        if c.get('sib'):
+            hit = self._last[2] if self._last and self._last[0] == C.case_hash(c) and len(self._last) > 2 else None
+            sib = hit or self.sib_run(c)
+            # the sibling asked first obeys the property as well (its full envelope was computed before its fragment)
+            fa, fr = sib['fullA'], sib['fragA']
+            if isinstance(fa, str) != isinstance(fr, str):
+                return 'sibling call: fragment and full envelope do not fail alike'
+            if not isinstance(fa, str) and not np.array_equal(fr, fa[c['off'] - base:c['off'] - base + c['n']]):
+                return (f"sibling call {c['sib']} made after the full envelope of the case was computed: its fragment "
+                        f"(offset {c['off']}, samples {c['n']}) differs from the slice of its own full envelope")
+            frag, full = sib['fragB'], sib['fullB']
+        else:
+            frag = last if last is not None else self.call_fn(c)
+            # the full envelope from sample 0; for offsets beyond 2^31 (no machine holds that envelope) a longer fragment
+            # that starts `back` samples earlier: two slices of one envelope agree where they overlap
+            full = self.call_fn(c, base, c['off'] + c['n'] - base, ref=True)
         if isinstance(frag, str) or isinstance(full, str):
             return None if frag == full else f'fragment: {frag if isinstance(frag, str) else "served"}, full: {full if isinstance(full, str) else "served"}'
         want = full[c['off'] - base:c['off'] - base + c['n']]
@@ -1179,7 +1389,8 @@ class C01(Spec):
         try:
             want = self.twin_ref.get(C.case_hash(c))
             if want is None:
-                want = pristine_draw(tw['tree'], n) if c.get('pristine') else np.array(S.build_real(tw['tree']).next(n))
+                want = pristine_draw(S.explicit(tw['tree']), n) if c.get('pristine') else \
+                    np.array(S.build_real(S.explicit(tw['tree'])).next(n))
             elif want.ndim == 0:
                 raise ValueError(str(want))
         except self.ERRS as e:
@@ -1188,7 +1399,7 @@ class C01(Spec):
         if isinstance(run, str) or any(isinstance(x, str) for x in run):
             return f'second object: chunks {h} raised but a single request for {n} samples is served'
         got = np.concatenate(run) if run else np.zeros(0)
-        tol = S.FIR_TOL if S.is_fir(tw['tree']) else 0.0
+        tol = S.tree_tol(tw['tree'])
         if not S.same(got, want, tol):
             i = S.first_diff(got, want)
             return (f'second object (built after and drawn interleaved with the first): chunks {h} differ from a single '
@@ -1214,6 +1425,7 @@ class C01(Spec):
             n = sum(c['chunks'])
             for _ in range(30):
                 d = copy.deepcopy(c)
+                d.pop('gsr', None)      # (the count get_samples_remaining() is expected to deliver belongs to the old chunks)
                 d['chunks'] = S.boundary_chunks(rng, max(n + rng.randint(0, 3), 1), S.marks_of(c['tree']))
                 yield d
         elif c['kind'] != 'exh':
@@ -1235,7 +1447,7 @@ class C01(Spec):
                 yield {**c, 'n': c['n'] - 1}
             if c['off'] > c.get('base', 0):
                 yield {**c, 'off': c['off'] - 1, 'n': c['n'] + 1}
-            for key in ('route', 'again', 'fsrep'):
+            for key in ('route', 'again', 'fsrep', 'sib'):
                 if key in c:
                     yield {k: v for k, v in c.items() if k != key}
             return
